@@ -254,6 +254,19 @@ impl Env {
                 self.clear_engine();
                 let mut o = vec![Tok::I(n as i128)]; o.extend(outs); o
             }
+            b"BLOCKSAVE" => {
+                // the temporary path is a directory: OpenOptions::open fails, save returns Err
+                let before = std::fs::read(self.file()).ok();
+                let tmp = self.dir.join("dump.tmp");
+                let _ = std::fs::remove_file(&tmp);
+                std::fs::create_dir_all(&tmp).unwrap();
+                let rdb = self.rdb();
+                let r = catch_unwind(AssertUnwindSafe(|| rdb.save(&eng)));
+                let st = match r { Ok(Ok(())) => 0, Ok(Err(_)) => 1, Err(_) => 2 };
+                let _ = std::fs::remove_dir_all(&tmp);
+                let after = std::fs::read(self.file()).ok();
+                vec![i(st), i((before == after) as i64)]
+            }
             b"PROBE" => {
                 let w = wall_ms();
                 nop.truncate(2); nop.push(Tok::I(w)); nop.push(i(self.chk as i64));
